@@ -66,6 +66,11 @@ package inprocgrpc
 //@   blocking_escape[C05,C04] ctx
 //@   loop loop#1 invariant[C08,C06] one_copy_per_response: (gotResponse <==> calls("inprocgrpc.Cloner.Copy") == 1) && calls("inprocgrpc.Cloner.Copy") <= 1 && calls("go") == 1 && calls("context.WithCancel") == 1 && !called("context.CancelFunc") && !called("internal.TranslateContextError")
 //@   loop loop#1 invariant[C02,C01] a_failed_copy_ends_the_loop: called("inprocgrpc.Cloner.Copy") ==> lastresult("inprocgrpc.Cloner.Copy") == nil
+//@   borrowed[C06] req until closed(ch) || recv_n(ch) >= 1
+//@   assert_call[C06,C01] inprocgrpc.Cloner.Clone : the_request_is_copied_before_the_server_side_starts: arg1 == req && !called("go")
+//@   ensures[C06,C02] a_request_that_cannot_be_copied_is_an_error_and_runs_nothing: called("inprocgrpc.Cloner.Clone") && lastresult("inprocgrpc.Cloner.Clone", 1) != nil ==> result == lastresult("inprocgrpc.Cloner.Clone", 1) && !called("go")
+//@   ensures[C06] the_server_side_starts_only_with_a_copy_of_the_request: called("go") ==> calls("inprocgrpc.Cloner.Clone") == 1 && lastresult("inprocgrpc.Cloner.Clone", 1) == nil
+//@   borrowed[C06] resp
 //@   ensures[C08,C06] success_means_exactly_one_response_was_copied: result == nil && called("go") ==> calls("inprocgrpc.Cloner.Copy") == 1
 //@   assert_call[C06,C01] inprocgrpc.Cloner.Copy : response_is_copied_into_the_callers_message: arg1 == resp && arg2 == r.data && r.data != nil
 //@   ensures[C04] never_a_bare_context_error: called("go") && result != context.Canceled && result != context.DeadlineExceeded || !called("go") || called("inprocgrpc.Cloner.Copy")
@@ -126,6 +131,7 @@ package inprocgrpc
 //@   assert_call[C10] makeServerContext : from_the_calls_cancellable_context: arg0 == ctx$captured
 //@   assert_call[C10,C03] grpc.NewContextWithServerTransportStream : stripped_context_with_this_calls_stream: arg0 == lastresult(makeServerContext) && arg1 == boxed(&sts)
 //@   assert_call[C16,C10,C12] grpc.MethodDesc.Handler : registered_server_fresh_context_copying_decoder_transport_interceptor: arg0 == handler && arg1 == lastresult(grpc.NewContextWithServerTransportStream) && arg2 == codec && arg3 == c.unaryInterceptor && calls(makeServerContext) == 1
+//@   assert_call[C06] writeMessage : frames_are_written_only_after_the_handler_returned: calls("grpc.MethodDesc.Handler") == 1
 //@   assert_call[C01,C05] writeMessage : on_the_reply_channel_with_the_server_context: arg0 == lastresult(grpc.NewContextWithServerTransportStream) && arg1 == nil && arg2 == ch
 //@   assert_call[C03,C01] writeMessage : headers_frame_only_first: arg3.headers != nil ==> !called(writeMessage) && arg3.data == nil && arg3.trailers == nil && arg3.err == nil && arg3.headers == lastresult("(*internal.UnaryServerTransportStream).GetHeaders")
 //@   assert_call[C08] isNil : of_the_handlers_response: arg0 == lastresult("grpc.MethodDesc.Handler", 0) && lastresult("grpc.MethodDesc.Handler", 1) == nil
@@ -216,6 +222,7 @@ package inprocgrpc
 //@   modifies s.state, s.trailers
 //
 //@ func (*inProcessServerStream).SendMsg
+//@   borrowed[C06] m
 //@   locks_only[C05] &s.mu
 //@   ensures[C05] after_the_end_sends_report_eof_and_send_nothing: !called(writeMessage) && !called("(*inProcessServerStream).sendHeadersLocked") ==> result != nil
 //@   assert_call[C03] (*inProcessServerStream).sendHeadersLocked : headers_flushed_before_the_first_message: arg0 == s && !called(writeMessage) && s.state == 0
@@ -227,6 +234,7 @@ package inprocgrpc
 //@   modifies s.headers, s.state, external
 //
 //@ func (*inProcessServerStream).RecvMsg
+//@   borrowed[C06] m
 //@   locks_only[C05] nothing
 //@   assert_call[C01,C04] readMessage : next_request_frame_with_the_stream_context: arg0 == s.ctx && arg1 == s.requests
 //@   ensures[C04,C05] receive_error_is_returned: lastresult(readMessage, 1) != nil ==> result == lastresult(readMessage, 1) && !called("inprocgrpc.Cloner.Copy")
@@ -250,6 +258,7 @@ package inprocgrpc
 //@   modifies s.sendClosed
 //
 //@ func (*inProcessClientStream).SendMsg
+//@   borrowed[C06] m
 //@   locks_only[C05] &s.reqMu
 //@   ensures[C05] send_after_close_fails_and_sends_nothing: at_lock(s.sendClosed) ==> result != nil && !called(writeMessage)
 //@   ensures[C06] nil_message_is_refused: called(isNil) && lastresult(isNil) ==> is_status_err(result) && err_status_code(result) == 13 && !called(writeMessage)
@@ -265,12 +274,14 @@ package inprocgrpc
 //@   modifies nothing
 //
 //@ func (*inProcessClientStream).RecvMsg
+//@   borrowed[C06] m
 //@   locks_only[C05] &s.respMu
 //@   ensures[C08,C01] delegates_under_the_lock_with_single_response_mode: calls("(*inProcessClientStream).recvMsgLocked") == 1 && result == lastresult("(*inProcessClientStream).recvMsgLocked")
 //@   assert_call[C08] (*inProcessClientStream).recvMsgLocked : last_message_iff_not_response_streaming: arg0 == s && arg1 == m && (arg2 <==> !s.responseStream) && held(&s.respMu)
 //@   modifies everything
 //
 //@ func (*inProcessClientStream).recvMsgLocked
+//@   borrowed[C06] m
 //@   locks_only[C05] nothing
 //@   requires held(&s.respMu)
 //@   loop loop#1 invariant[C01,C08] nothing_delivered_yet: !called("inprocgrpc.Cloner.Copy") && !called("(*inProcessClientStream).ensureNoMoreLocked") && !called("internal.TranslateContextError") && held(&s.respMu)
@@ -291,6 +302,7 @@ package inprocgrpc
 //@   modifies s.state, s.last, s.headers, s.trailers, mem("metadata.MD"), mem("error"), external
 //
 //@ func (*inProcessClientStream).ensureNoMoreLocked
+//@   borrowed[C06] m
 //@   locks_only[C05] nothing
 //@   requires held(&s.respMu)
 //@   ensures[C08] probes_once_for_another_message: calls("(*inProcessClientStream).recvMsgLocked") == 1
@@ -414,7 +426,7 @@ package inprocgrpc
 // the handler's message through the channel's cloner (never hands over the request itself).
 //@ closure (*Channel).Invoke.codec
 //@   ensures[C06,C01] copies_the_request_once: calls("inprocgrpc.Cloner.Copy") == 1 && result == lastresult("inprocgrpc.Cloner.Copy")
-//@   assert_call[C06,C01] inprocgrpc.Cloner.Copy : request_into_the_handlers_message: arg0 == cloner && arg1 == out && arg2 == req
+//@   assert_call[C06,C01] inprocgrpc.Cloner.Copy : the_servers_own_copy_of_the_request_into_the_handlers_message: arg0 == cloner && arg1 == out && arg2 == reqCopy
 //@   modifies everything
 //
 //@ func (*inProcessClientStream).Context
